@@ -1,21 +1,21 @@
-\* C02 reciprocity -- quick
+\* C07 reflections and axis swap -- quick
 CONSTANTS
   ShiftStyle = "pad" LevelStyle = "match" TruncStyle = "exact" AnalyticStyle = "outer" BCubic = "plus"
-  Sizes = {302, 403}
+  Sizes = {302, 403, 404}
   Cells = {11, 23}
-  Halos = {99, 0, 1, 2, 3, 4}
+  Halos = {0}
   ModeSet = {202, 402, 1212}
   NZs = {3}
   LevelLists = "single"
   Tabs = {1}
   Analytic = {FALSE}
-  Family = "recip"
+  Family = "symmetry"
 INIT Init
 NEXT Next
 CHECK_DEADLOCK FALSE
 INVARIANT StagesAgree
 INVARIANT ShapeOrError
-INVARIANT ErrorsAreDeclared
-INVARIANT Recip
-INVARIANT RegularRun
+INVARIANT MirrorX
+INVARIANT MirrorY
+INVARIANT Transpose
 INVARIANT Emit
